@@ -8,6 +8,7 @@ import StirVerif.C20.ProofsBlock
 import StirVerif.C20.ProofsKL
 import StirVerif.C20.ProofsDescentModel
 import StirVerif.C20.ProofsGeoClass
+import StirVerif.C20.ProofsGeoStructure
 /-!
 # C20 — component-based normalisation: data conversions are lossless, ML steps descend.  Property theorems.
 
@@ -19,10 +20,9 @@ ring differences and all values in an arbitrary field (ordered field / `ℝ` whe
 The descent of the efficiency iteration (§6) is proved twice: abstractly, for any finite set of detectors
 (`C20_eff_coordinate_update_descends`, `C20_eff_iteration_descends`), and for the executable model itself
 (`C20_eff_iteration_descends_on_model`, by the refinement `ProofsDescentModel.lean`: the in-place detector loop of `iterateEff`
-is the abstract sweep, `klPairs` is half the abstract objective).  The only statement of this file that is stated but not
-proved is `C20_geo_fixed_point_statement` (a `def … : Prop`); it is proved under the extra hypothesis `GeoClassOK`
-(`C20_geo_fixed_point_partial`, `ProofsGeoFold.lean`, `ProofsGeoClass.lean`), a decidable value-free statement about the index maps
-of `make_geo_data` and `apply_geo_norm`.
+is the abstract sweep, `klPairs` is half the abstract objective).  The fixed point of the geometric factors (§5,
+`C20_geo_fixed_point`) rests on the class structure of the index maps of `make_geo_data` and `apply_geo_norm`
+(`C20_geo_class_structure`, `ProofsGeoFold/Class/Orbit/Mirror/Structure.lean`).  Nothing in this file is stated without proof.
 -/
 namespace StirVerif.C20
 
@@ -271,62 +271,69 @@ theorem C20_block_data_index_range_fails :
     ¬ ∀ c ∈ (⟨1, 8, 0, 2⟩ : Dims).canon, (Dims.ofCtor 1 2 0 1).allocated (blockKey ⟨1, 8, 0, 2⟩ (Dims.ofCtor 1 2 0 1) c) = true := by
   decide
 
-/-- **Stated, not proved in general** (checked strictly by the oracle of `harness/c20_mlnorm.cxx` on every generated configuration,
-odd and even ring counts, with and without gaps): geometric factors that are an ML estimate are reproduced by `iterate_geo_norm`
-from data generated with them.  (Arbitrary geometric factors are *not* a fixed point: several of them describe one class and
-`geoWork` lets the last one win — hence the statement is about an ML estimate.)
-
-`g.Fits d` — the `GeoData3D` was made for this `FanProjData`: `g.N = d.N`, the transaxial blocks tile the ring
-(`2·half ∣ N`), the axial blocks tile the rings (`acpb ∣ R`) — is necessary: without it the statement is **false** (evaluated with
-`#eval` on the model at `ℚ`, pseudo-random positive model and data): `d = ⟨2,6,1,0⟩, g = ⟨1,2,2,6⟩` (blocks of 4 crystals on a ring
-of 6: the mirror images written by `apply_geo_norm` do not cover the ring), `d = ⟨5,8,2,1⟩, g = ⟨3,1,5,8⟩` (3 rings per block, 5 rings:
-`make_geo_data` sums the axial mirror image of a cross-ring LOR, `apply_geo_norm` never writes it) and `d = ⟨2,4,1,1⟩, g = ⟨1,2,2,6⟩`
-(`g.N ≠ d.N`: `make_geo_data` and `iterate_geo_norm` address different elements).  Every `GeoData3D` that STIR builds from a scanner
-fits.
-
-What is proved: `C20_geo_fixed_point_partial` reduces the statement to the *class structure* `GeoClassOK d g` of the two index
-maps (a decidable statement about index tuples, no values: every element summed into a factor by `make_geo_data` is written by
-`apply_geo_norm`, and only from factors that sum the same elements) — `C20_geo_fixed_point_of_class_structure`.  `GeoClassOK` holds
-for all 4420 fitting configurations with ≤ 9 rings, ≤ 16 detectors per ring that were evaluated, and is proved (`decide`) for the
-examples below; it is not proved for all `d`, `g` (it says that these sets are the orbits of the group generated by block
-translations and the two mirror images, with the translations cut off at the first and last ring). -/
-def C20_geo_fixed_point_statement : Prop :=
-  ∀ (d : Dims) (g : GeoDims) (model data : Fan ℚ), d.WF → g.Fits d →
-    (∀ c ∈ d.canon, 0 < model.get (d.key c) ∧ 0 < data.get (d.key c)) →
-    let ghat := iterateGeo d g (makeGeo d g data) model
-    ∀ k, (iterateGeo d g (makeGeo d g (applyGeo d g model ghat true)) model).get k = ghat.get k
+/-- *The class structure of the geometric factors* (index maps only, no values): for every well-formed `FanProjData` and every
+`GeoData3D` made for it (`g.Fits d`: `g.N = d.N`, the transaxial blocks tile the ring, `2·half ∣ N`, the axial blocks tile the
+rings, `acpb ∣ R`), every array element that `make_geo_data` sums into a geometric factor `c` (`geoTermKeys`: block translations
+that stay in the data, each with its 2 or 4 mirror images) is written by `apply_geo_norm` (`geoWriteTargets`), and every factor
+`c'` that is written to it — whichever write is the last — sums the same elements as `c`, with the same multiplicities.
+Proof (`ProofsGeoOrbit/Mirror/Structure.lean`): the summed entries of `c` are the index tuples of the loop nest in the lattice class
+of `c` (`mem_geoOrbit`); two entries sharing one of their four elements are equal or axial mirror images of each other, named from
+the other detector when the rings differ (`key_eq_cases`; `is_in_data` makes `apply_geo_norm` write axial mirror images of in-ring
+entries only); these mirror images are involutions of the loop nest that respect the lattice and permute the four elements
+(`terms_perm_of_map`). -/
+theorem C20_geo_class_structure {d : Dims} (wf : d.WF) {g : GeoDims} (fits : g.Fits d) : GeoClassOK d g :=
+  geoClassOK wf fits
 
 section geo
 variable {K : Type} [Field K] [LinearOrder K] [IsStrictOrderedRing K]
 
-/-- *"… the model parameters are a fixed point of the maximum-likelihood iterations"* — geometric factors, **under the extra
-hypothesis `GeoClassOK d g`** (the class structure of the index maps, see `C20_geo_fixed_point_statement`; decidable, no values
-involved): for positive model and data, any ordered field, the ML estimate `ĝ = iterate_geo_norm(make_geo_data(data), model)` is
-reproduced — every element of the `GeoData3D` — by `iterate_geo_norm` from the data `apply_geo_norm(model, ĝ)` generated with it.
-The proof covers the value level completely: `make_geo_data` as a sum over `geoTermKeys` (`makeGeo_get`), last-write-wins of the
-table `work` of `apply_geo_norm` (`geoWork_get`), `iterate_geo_norm` (`iterateGeo_get`), and the `find_max()/10000` threshold: the
-data generated from `ĝ` have class sums `≤` the measured ones, so the threshold can only go down, and a factor that was kept
-(`≥ threshold` or `< 10000`) or zeroed is kept or zeroed again (`ratioOrZero_refixed`). -/
-theorem C20_geo_fixed_point_partial {d : Dims} (wf : d.WF) {g : GeoDims} (fits : g.Fits d) (hclass : GeoClassOK d g)
+/-- *"For data generated exactly from a model, the model parameters are a fixed point of the maximum-likelihood iterations"* —
+geometric factors: for positive model and data, any ordered field, the ML estimate
+`ĝ = iterate_geo_norm(make_geo_data(data), model)` is reproduced — every element of the `GeoData3D` — by `iterate_geo_norm` from the
+data `apply_geo_norm(model, ĝ)` generated with it.  (Arbitrary geometric factors are *not* a fixed point: several of them describe
+one class and `apply_geo_norm` lets the last one win — hence the statement is about an ML estimate.)
+Value level (`ProofsGeoFold/Class.lean`): `make_geo_data` is the sum over `geoTermKeys` (`makeGeo_get`), the table `work` of
+`apply_geo_norm` holds the factor of one of the writers (`geoWork_get`), `iterate_geo_norm` is the thresholded ratio
+(`iterateGeo_get`); by the class structure all writers of a class have the same `ĝ`, so the class sums of the generated data are
+`ĝ·S ≤` the measured ones, the `find_max()/10000` threshold can only go down, and a factor that was kept (`≥ threshold` or
+`< 10000`) or zeroed is kept or zeroed again (`ratioOrZero_refixed`).
+
+`g.Fits d` is necessary.  Without it the statement fails on the model (evaluated with `#eval` at `ℚ`, pseudo-random positive model
+and data): `d = ⟨2,6,1,0⟩, g = ⟨1,2,2,6⟩` (blocks of 4 crystals on a ring of 6: the mirror images written by `apply_geo_norm` do not
+cover the ring), `d = ⟨5,8,2,1⟩, g = ⟨3,1,5,8⟩` (3 rings per block, 5 rings: `make_geo_data` sums the axial mirror image of a cross-ring
+LOR, `apply_geo_norm` never writes it) and `d = ⟨2,4,1,1⟩, g = ⟨1,2,2,6⟩` (`g.N ≠ d.N`: `make_geo_data` and `iterate_geo_norm` address
+different elements).  Every `GeoData3D` that STIR builds from a scanner fits. -/
+theorem C20_geo_fixed_point {d : Dims} (wf : d.WF) {g : GeoDims} (fits : g.Fits d)
     (model data : Fan K) (hpos : ∀ c ∈ d.canon, 0 < model.get (d.key c) ∧ 0 < data.get (d.key c)) (k : Key) :
     (iterateGeo d g (makeGeo d g (applyGeo d g model (iterateGeo d g (makeGeo d g data) model) true)) model).get k =
       (iterateGeo d g (makeGeo d g data) model).get k :=
-  geo_fixed_point_of_class wf fits hclass model data hpos k
+  geo_fixed_point_of_class wf fits (geoClassOK wf fits) model data hpos k
 
 end geo
 
-/-- what remains of `C20_geo_fixed_point_statement` is the class structure of the index maps for all dimensions -/
-theorem C20_geo_fixed_point_of_class_structure (h : ∀ (d : Dims) (g : GeoDims), d.WF → g.Fits d → GeoClassOK d g) :
-    C20_geo_fixed_point_statement :=
-  fun d g model data wf fits hpos k => C20_geo_fixed_point_partial wf fits (h d g wf fits) model data hpos k
+/-- The same in the form in which it was first stated (over `ℚ`; the oracle of `harness/c20_mlnorm.cxx` checks it on every generated
+configuration, odd and even ring counts, with and without gaps) — with the hypothesis `g.Fits d` that was missing. -/
+theorem C20_geo_fixed_point_statement :
+  ∀ (d : Dims) (g : GeoDims) (model data : Fan ℚ), d.WF → g.Fits d →
+    (∀ c ∈ d.canon, 0 < model.get (d.key c) ∧ 0 < data.get (d.key c)) →
+    let ghat := iterateGeo d g (makeGeo d g data) model
+    ∀ k, (iterateGeo d g (makeGeo d g (applyGeo d g model ghat true)) model).get k = ghat.get k :=
+  fun _ _ model data wf fits hpos k => C20_geo_fixed_point wf fits model data hpos k
 
-/-- the class structure holds e.g. for 3 rings of 4 detectors (odd number of rings: a central ring), blocks of 1 × 4 crystals, all
-ring differences … -/
+/-- hypotheses of `C20_geo_fixed_point` are satisfiable (2 rings of 8 detectors in blocks of 1 × 4 crystals, ring difference 1,
+half fan 2; model 3, data 5) -/
+example : ∃ (model data : Fan ℚ), (⟨2, 8, 1, 2⟩ : Dims).WF ∧ (⟨1, 2, 2, 8⟩ : GeoDims).Fits ⟨2, 8, 1, 2⟩ ∧
+    (∀ c ∈ (⟨2, 8, 1, 2⟩ : Dims).canon, 0 < model.get ((⟨2, 8, 1, 2⟩ : Dims).key c) ∧ 0 < data.get ((⟨2, 8, 1, 2⟩ : Dims).key c)) :=
+  ⟨Fan.const _ 3, Fan.const _ 5, by decide, by decide,
+    fun c hc => ⟨by rw [Fan.const_get _ _ hc]; norm_num, by rw [Fan.const_get _ _ hc]; norm_num⟩⟩
+
+/-- the class structure evaluated by the kernel on a small scanner (3 rings of 4 detectors — a central ring — blocks of 1 × 4
+crystals, all ring differences): an independent check of the definitions behind `C20_geo_class_structure` -/
 example : (⟨3, 4, 2, 0⟩ : Dims).WF ∧ (⟨1, 2, 3, 4⟩ : GeoDims).Fits ⟨3, 4, 2, 0⟩ ∧ GeoClassOK ⟨3, 4, 2, 0⟩ ⟨1, 2, 3, 4⟩ := by decide
 
-/-- … and for 2 rings of 8 detectors in blocks of 1 × 4 crystals, ring difference 1, half fan 1 — so for these scanners the
-geometric fixed point is a theorem for all positive data and models -/
-example : (⟨2, 8, 1, 1⟩ : Dims).WF ∧ (⟨1, 2, 2, 8⟩ : GeoDims).Fits ⟨2, 8, 1, 1⟩ ∧ GeoClassOK ⟨2, 8, 1, 1⟩ ⟨1, 2, 2, 8⟩ := by decide
+/-- dimensions that do not fit: blocks of 4 crystals on a ring of 6, 3 rings per block on 5 rings -/
+example : ¬ (⟨1, 2, 2, 6⟩ : GeoDims).Fits ⟨2, 6, 1, 0⟩ ∧ ¬ (⟨3, 1, 5, 8⟩ : GeoDims).Fits ⟨5, 8, 2, 1⟩ ∧
+    ¬ (⟨1, 2, 2, 6⟩ : GeoDims).Fits ⟨2, 4, 1, 1⟩ := by decide
 
 /-! ### the mirror condition of `make_geo_data` -/
 
